@@ -138,6 +138,15 @@ PLAN = {
         "trusted_base": BASE_TRUST,
         "assumptions": ["the primitives are ideal in the model: scrypt/age, OpenPGP S2K locking and minisign's KDF unwrap exactly under the wrapping password; decryption succeeds exactly with the private half of the pair encrypted to; a signature verifies exactly under the signing pair's public half (the real libraries are exercised by the correspondence, not proved)"],
     },
+    "C11": {
+        "streams": {
+            "quick": [{"stream": "conc", "race": True, "args": ["-n", "96", "-workers", "8", "-rs", "20,3", "-clients", "4", "-watchdog", "20"], "timeout": 2400}],
+            "thorough": [{"stream": "conc", "race": True, "args": ["-n", "2000", "-workers", "8", "-rs", "20,1,3,7", "-clients", "8", "-watchdog", "30"], "timeout": 14000}],
+        },
+        "generated": ["Stfs/Gen/Guards.lean (statement shapes of every method of *STFS and *File: where the lock is taken)", "Stfs/Gen/Locks.lean (lock skeletons of pkg/operations)"],
+        "trusted_base": BASE_TRUST,
+        "assumptions": BASE_ASSUME + ["Go's sync.Mutex provides mutual exclusion and happens-before between Unlock and the next Lock (the generic theorem's model of the mutex); the Go memory model and the scheduler are outside the model: the race detector and injected yields search the real code for schedules, they prove nothing", "the single SQLite connection serialises index statements issued outside the filesystem lock (Create's and Symlink's pre-lock probes)"],
+    },
     "C03": {
         "streams": {
             "quick": [fsp(60, 10, "C03", pipes="++;gzip++;+age+;++minisign;zstandard+pgp+pgp+smallest+memory;lz4+age+minisign+balanced;brotli++pgp+smallest;bzip2+pgp++balanced+memory;parallelgzip+age+pgp+smallest;parallelbzip2++minisign+balanced+memory;gzip+pgp+minisign+smallest;zstandard+age++balanced;lz4+++smallest+memory;brotli+age+minisign;bzip2++pgp+smallest", mode="roundtrip", rs="20,3,1,64", timeout=2400)],
